@@ -249,7 +249,7 @@ func execute(c Case) *pt.Failure {
 		if c.Foreign == "change-written-subtly" {
 			nv = subtle(col, target.after[col.Name])
 		}
-		ferr = exec("UPDATE "+tname+" SET "+col.Name+" = ? WHERE "+w, append([]interface{}{nv}, a...)...)
+		ferr = exec("UPDATE "+tname+" SET "+gen.Q(col.Name)+" = ? WHERE "+w, append([]interface{}{nv}, a...)...)
 	case "delete-row":
 		if target.after == nil {
 			return nil
@@ -263,7 +263,7 @@ func execute(c Case) *pt.Failure {
 		var cols, ph []string
 		var args []interface{}
 		for i, col := range tb.Cols {
-			cols = append(cols, col.Name)
+			cols = append(cols, gen.Q(col.Name))
 			ph = append(ph, "?")
 			v := target.before[col.Name]
 			if c.Foreign == "reinsert-deleted" && i >= len(tb.PK) && i == len(tb.Cols)-1 {
@@ -282,7 +282,7 @@ func execute(c Case) *pt.Failure {
 				var sets []string
 				var args []interface{}
 				for _, col := range tb.Cols[len(tb.PK):] {
-					sets = append(sets, col.Name+" = ?")
+					sets = append(sets, gen.Q(col.Name)+" = ?")
 					args = append(args, r.before[col.Name])
 				}
 				w, a := where(r)
@@ -294,7 +294,7 @@ func execute(c Case) *pt.Failure {
 				var cols, ph []string
 				var args []interface{}
 				for _, col := range tb.Cols {
-					cols = append(cols, col.Name)
+					cols = append(cols, gen.Q(col.Name))
 					ph = append(ph, "?")
 					args = append(args, r.before[col.Name])
 				}
